@@ -860,6 +860,8 @@ class IMAPClientCommand:
         # as a message structure right away (I hope this works in all cases,
         # even with draft messages.)
         #
+        if self._p_simple_string("{", silent=True, swallow=False) is None:
+            raise BadSyntax("the message of APPEND must be a literal")
         self.message = message_from_string(
             self._p_string(), policy=email.policy.SMTP
         )
